@@ -43,12 +43,14 @@ import (
 )
 
 type xhop struct {
-	K      string `json:"k"` // put-slc put-usc put-bal put-ref estimates evidence stored pad err endblock
+	K      string `json:"k"` // put-slc put-mev put-usc put-bal put-ref trait snapshot estimates evidence stored pad err endblock
 	Chain  int    `json:"chain,omitempty"`
 	ID     uint64 `json:"id,omitempty"`
 	V      int    `json:"v,omitempty"`
 	P      string `json:"p,omitempty"`
 	Height int64  `json:"h,omitempty"`
+	Last   bool   `json:"last,omitempty"` // the message put last (instead of ID)
+	On     bool   `json:"on,omitempty"`   // trait: advertise the MEV trait
 }
 
 type amirror struct {
@@ -239,7 +241,52 @@ func (r *arunner) refBusy(m *amirror) bool {
 func (r *arunner) do(h xhop) {
 	e := r.e
 	ctx := e.at(e.height)
+	if h.Last && len(r.order) > 0 {
+		h.ID = r.order[len(r.order)-1]
+	}
 	switch h.K {
+	case "trait":
+		// validator V re-registers its chain accounts with / without the MEV trait
+		if h.V < 0 || h.V >= len(e.vals) {
+			break
+		}
+		var infos []*valsettypes.ExternalChainInfo
+		for _, in := range e.infos[h.V] {
+			cp := *in
+			cp.Traits = nil
+			if h.On {
+				cp.Traits = []string{valsettypes.PIGEON_TRAIT_MEV}
+			}
+			infos = append(infos, &cp)
+		}
+		if err := e.f.ValsetKeeper.AddExternalChainInfo(ctx, e.vals[h.V], infos); err != nil {
+			r.t.Fatalf("AddExternalChainInfo: %v", err)
+		}
+	case "snapshot":
+		if err := e.buildSnapshot(); err != nil {
+			r.t.Fatal(err)
+		}
+		var items []string
+		for i, p := range e.powers {
+			items = append(items, emit.Pair(emit.ZI(int64(i)), emit.ZI(p)))
+		}
+		r.terms = append(r.terms, "C09.XSnapshot "+emit.List(items))
+	case "put-mev":
+		// a logic call that enforces MEV relaying and may still be retried
+		before := r.queued()
+		out, what := guard(func() error {
+			_, err := e.f.EvmKeeper.AddSmartContractExecutionToConsensus(ctx, chains[h.Chain], "", &evmtypes.SubmitLogicCall{
+				Payload: []byte{1, 2, 3, byte(len(r.order))}, HexContractAddress: "0x51eca2efb15afacc612278c71f5edb35986f172f", Abi: []byte("[]"), Deadline: 1337,
+				SenderAddress: []byte("abcdefghijabcdefghij"), ContractAddress: []byte("abcdefghijabcdefghij"),
+				ExecutionRequirements: evmtypes.SubmitLogicCall_ExecutionRequirements{EnforceMEVRelay: true},
+			})
+			return err
+		})
+		if out == 2 {
+			r.run.Violate("C09:put-panic", "AddSmartContractExecutionToConsensus (MEV) panicked: "+what, r.replay(h))
+		}
+		r.run.Count("put-mev", map[int]string{0: "assigned", 1: "refused", 2: "panic"}[out])
+		r.register(before, "slc", h.Chain, false)
 	case "put-slc":
 		before := r.queued()
 		out, what := guard(func() error {
@@ -601,6 +648,25 @@ func genAttestHistory(run *emit.Run, nv int) []xhop {
 			}
 			ops = append(ops, xhop{K: "endblock", Height: height})
 		}
+	}
+	// an MEV-only job whose relay fails: the attestation retries it in the end-blocker, with or
+	// without a validator left that advertises the MEV trait
+	if r.Intn(3) == 0 {
+		v, ci := r.Intn(nv), r.Intn(2)
+		ops = append(ops, xhop{K: "trait", V: v, On: true}, xhop{K: "snapshot"}, xhop{K: "put-mev", Chain: ci})
+		if r.Intn(4) > 0 {
+			ops = append(ops, xhop{K: "trait", V: v, On: false}, xhop{K: "snapshot"})
+		}
+		if r.Intn(2) == 0 {
+			ops = append(ops, xhop{K: "err", Last: true, V: v})
+		}
+		for w := 0; w < nv; w++ {
+			ops = append(ops, xhop{K: "evidence", Last: true, V: w, P: "err:9"})
+		}
+		height += int64(1 + r.Intn(3))
+		ops = append(ops, xhop{K: "endblock", Height: height})
+		height++
+		ops = append(ops, xhop{K: "endblock", Height: height})
 	}
 	// past the pruning age
 	final := (height+300)/50*50 + 50
